@@ -91,6 +91,10 @@ def run_c17(R, tier, rng):
             sel_idx = list(range(nr))[rs] if isinstance(rs, slice) else rs
             m2 = min(lens[i] for i in sel_idx)
             for j in range(-m2, m2):
+                for jt in (np.int64, np.int32, np.uint8):      # the column given as a numpy integer: one value per selected row, as for the Python int
+                    if j < 0 and jt is np.uint8: continue
+                    C.cmp(f"col/{jt.__name__} {tag} [{rs!r},{j}]", "column-int/numpy-scalar", nt, lambda: kl(np.asarray(mk()[np.array(rs) if isinstance(rs, list) else rs, jt(j)])),
+                          lambda: [key(A[i][j]) for i in sel_idx], py=pyb + f"; rl[{rs!r}, np.{jt.__name__}({j})]")
                 C.cmp(f"col {tag} [{rs!r},{j}]", "column-int", nt, lambda: kl(np.asarray(mk()[np.array(rs) if isinstance(rs, list) else rs, j])), lambda: [key(A[i][j]) for i in sel_idx], py=pyb + f"; rl[{rs!r}, {j}]")
             B = [None] + list(range(-mx - 1, mx + 2))
             for _ in range(10 if tier != "thorough" else 30):
